@@ -50,6 +50,7 @@ RemoveAt(e) ==
 EdStepOk(cap, pre, op, st) ==
     LET post == Ed(Decode(st.line), st.cur) IN
     /\ Chk(<<"editor state well-formed", st>>, post.line # Bad /\ EdOk(post, cap) /\ st.len = Len(post.line))
+    /\ EdOk(pre, cap)
     /\ IF op.o = "ins" THEN
           LET t == Decode(op.t)
               fits == Bytes(pre.line) + Len(op.t) <= cap
